@@ -36,6 +36,19 @@ def check_c16(budget):
     from auditok.core import AudioRegion
     t0 = time.time()
     ev = 0
+    # a view taken from a temporary region keeps working after the region variable is gone and the collector has run
+    import gc
+    for nm in ("sec", "ms"):
+        ev += 1
+        view = getattr(AudioRegion(bytes(range(40)), 10, 2, 1)[2:], nm)
+        gc.collect()
+        try:
+            got = bytes(view[0:(0.5 if nm == "sec" else 500)])
+        except Exception as e:  # noqa
+            return {"kind": "region", "pid": "C16", "op": "view-lifetime", "args": [nm],
+                    "observed": "slicing the .%s view of a region that is no longer referenced raised %s" % (nm, type(e).__name__)}, ev
+        if got != bytes(range(4, 14)):
+            return {"kind": "region", "pid": "C16", "op": "view-lifetime", "args": [nm], "observed": "wrong bytes %r" % got}, ev
     # lengths / rates for which n / rate * rate is not n in binary floating point
     for n, sr in FLOAT_SENSITIVE:
         for sw, ch in ((2, 1), (1, 2)):
@@ -152,6 +165,32 @@ def check_c17(budget):
             if b"".join(bytes(p) for p in parts) != data or len(parts) != min(k, n) or max(lens) - min(lens) > 1:
                 return {"kind": "region", "pid": "C17", "op": "div", "args": [n, k, sr, 2, 2],
                         "observed": "%d pieces of lengths %r for %d samples" % (len(parts), lens, n)}, ev
+    # pieces of a division (and slices) are ordinary regions: their sum is the original, they can be repeated and
+    # concatenated, and += on a variable leaves the objects it referred to unchanged
+    for sw, ch in fmts:
+        data = mkdata(7, sw, ch)
+        r = AudioRegion(data, 16, sw, ch)
+        for k in (1, 2, 3, 7):
+            ev += 1
+            parts = r / k
+            try:
+                ok = (sum(parts) == r) and bytes(parts[0] * 2) == bytes(parts[0]) * 2 and bytes(parts[0] + r[1:3]) == bytes(parts[0]) + bytes(r[1:3]) \
+                    and bytes(r[1:3] * 2 + r[0:1]) == bytes(r[1:3]) * 2 + bytes(r[0:1])
+                what = "sum(region / %d) != region or repetition / concatenation of a piece gives wrong bytes" % k
+            except Exception as e:  # noqa
+                ok, what = False, "sum / repetition / concatenation of the pieces of region / %d raised %s: %s" % (k, type(e).__name__, e)
+            if not ok:
+                return {"kind": "region", "pid": "C17", "op": "div-sum", "args": [7, k, 16, sw, ch], "observed": what}, ev
+        ev += 1
+        parts = r / 3
+        before = [bytes(p) for p in parts]
+        acc = parts[0]
+        acc += parts[1]
+        acc += parts[2]
+        if [bytes(p) for p in parts] != before or bytes(acc) != data or bytes(r) != data:
+            return {"kind": "region", "pid": "C17", "op": "iadd", "args": [7, 3, 16, sw, ch],
+                    "observed": "`acc = parts[0]; acc += parts[1]; acc += parts[2]` altered an operand: pieces now have %r samples, before %r" % (
+                        [len(p) for p in parts], [len(b) // (sw * ch) for b in before])}, ev
     # join accepts any iterable of regions, also one that can be traversed only once
     for sw, ch in fmts:
         regs = [AudioRegion(mkdata(n, sw, ch), 16, sw, ch) for n in (3, 0, 2)]
